@@ -464,3 +464,166 @@ func ruleR1_11(w *World, r *Report) {
 		r.Unk("R1.11", "search loops", "-", fmt.Sprintf("%d search loop(s) carrying a literal found, expected one per strategy", n))
 	}
 }
+
+// R1.12: a clause recorded as the reason of a binding is locked.
+//
+// Clause deletion skips locked clauses only. A learned clause that is the reason of a current binding and is deleted
+// (or recycled) while the binding stands is later read by conflict analysis.
+func ruleR1_12(w *World, r *Report) {
+	r.Rule("R1.12", "every store of a clause into Solver.reason is accompanied, in the same block, by a call locking that clause - except for clauses taken from the two-literal watch lists, which are never candidates for deletion", 2)
+	lock := w.Func("solver", "Clause.lock")
+	if lock == nil {
+		r.Unk("R1.12", "(*solver.Clause).lock", "-", "method not found")
+		return
+	}
+	n := 0
+	for _, fn := range w.Fns {
+		if w.PkgName(fn) != "solver" {
+			continue
+		}
+		k := 0
+		allInstrs(fn, func(ins ssa.Instruction) {
+			st, ok := ins.(*ssa.Store)
+			if !ok {
+				return
+			}
+			ia, ok := st.Addr.(*ssa.IndexAddr)
+			if !ok {
+				return
+			}
+			if _, isR := isFieldLoad(ia.X, "solver.Solver", "reason"); !isR || isNilConst(st.Val) {
+				return
+			}
+			k++
+			n++
+			key := fmt.Sprintf("%s reason store #%d", w.FuncName(fn), k)
+			for _, ci := range callsIn(fn) {
+				if c, isC := ci.(*ssa.Call); isC && w.staticCalleeIs(c, lock) && len(c.Call.Args) == 1 && c.Call.Args[0] == st.Val &&
+					(c.Block() == st.Block() || instrDominates(c, st)) {
+					r.OK("R1.12", key, w.InstrPos(st), "locked in the same step")
+					return
+				}
+			}
+			// a clause built here by the constructor of original (not learned) clauses is never deleted
+			if mk, isC := st.Val.(*ssa.Call); isC {
+				if sc := mk.Call.StaticCallee(); sc != nil && sc.Name() == "NewClause" && w.PkgName(sc) == "solver" {
+					r.OK("R1.12", key, w.InstrPos(st), "an original clause built here (not a learned one): never deleted")
+					return
+				}
+			}
+			if fromBinWatch(st.Val) {
+				r.OK("R1.12", key, w.InstrPos(st), "two-literal clause from the binary watch lists: never deleted (R1.7)")
+				return
+			}
+			// binary watcher: value loaded from a field of a watcher element of wlistBin
+			if ld, isL := st.Val.(*ssa.UnOp); isL && ld.Op == token.MUL {
+				if _, f, base, okF := fieldOf(ld.X); okF && f == "clause" {
+					root := base
+					for i := 0; i < 6; i++ {
+						switch y := root.(type) {
+						case *ssa.IndexAddr:
+							root = y.X
+							continue
+						case *ssa.UnOp:
+							if fa, isFA := y.X.(*ssa.IndexAddr); isFA && y.Op == token.MUL {
+								root = fa
+								continue
+							}
+						}
+						break
+					}
+					if rf, okR := rootField(root); okR && strings.Contains(rf, "wlistBin") {
+						r.OK("R1.12", key, w.InstrPos(st), "two-literal clause from the binary watch lists: never deleted (R1.7)")
+						return
+					}
+					if ld2, isL2 := root.(*ssa.UnOp); isL2 {
+						if rf, okR := rootField(ld2.X); okR && strings.Contains(rf, "wlistBin") {
+							r.OK("R1.12", key, w.InstrPos(st), "two-literal clause from the binary watch lists: never deleted (R1.7)")
+							return
+						}
+					}
+				}
+			}
+			// a Field of a ranged watcher value
+			if fv, isF := st.Val.(*ssa.Field); isF {
+				if rangedOverBin(fv.X) {
+					r.OK("R1.12", key, w.InstrPos(st), "two-literal clause from the binary watch lists: never deleted (R1.7)")
+					return
+				}
+			}
+			r.Bad("R1.12", key, w.InstrPos(st), "the clause stored as reason is not locked: the deletion of learned clauses may drop it while the binding it explains still stands, and conflict analysis then reads a clause that is no longer in the database")
+		})
+	}
+	if n < 2 {
+		r.Unk("R1.12", "reason stores", "-", fmt.Sprintf("%d store(s) of a non-nil reason found", n))
+	}
+}
+
+// fromBinWatch: v is read out of the field wlistBin (through loads, indexing and field selections).
+func fromBinWatch(v ssa.Value) bool {
+	for i := 0; i < 10 && v != nil; i++ {
+		switch x := v.(type) {
+		case *ssa.Field:
+			v = x.X
+		case *ssa.UnOp:
+			if x.Op != token.MUL {
+				return false
+			}
+			v = x.X
+		case *ssa.IndexAddr:
+			v = x.X
+		case *ssa.Alloc:
+			// a local copy of a ranged element: every value stored into it must come from the binary lists
+			n := 0
+			for _, ref := range *x.Referrers() {
+				if st, ok := ref.(*ssa.Store); ok && st.Addr == ssa.Value(x) {
+					n++
+					if !fromBinWatch(st.Val) {
+						return false
+					}
+				}
+			}
+			return n > 0
+		case *ssa.FieldAddr:
+			if _, f, base, ok := fieldOf(x); ok {
+				if f == "wlistBin" {
+					return true
+				}
+				v = base
+			} else {
+				return false
+			}
+		default:
+			return false
+		}
+	}
+	return false
+}
+
+// rangedOverBin: v is an element loaded from a slice found in the field wlistBin.
+func rangedOverBin(v ssa.Value) bool {
+	ld, ok := v.(*ssa.UnOp)
+	if !ok || ld.Op != token.MUL {
+		return false
+	}
+	ia, ok := ld.X.(*ssa.IndexAddr)
+	if !ok {
+		return false
+	}
+	x := ia.X
+	for i := 0; i < 4; i++ {
+		if rf, okR := rootField(x); okR && strings.Contains(rf, "wlistBin") {
+			return true
+		}
+		if l2, isL := x.(*ssa.UnOp); isL && l2.Op == token.MUL {
+			x = l2.X
+			continue
+		}
+		if i2, isI := x.(*ssa.IndexAddr); isI {
+			x = i2.X
+			continue
+		}
+		break
+	}
+	return false
+}
